@@ -118,6 +118,77 @@ def run_tree(rng):
     return problems
 
 
+def spawned_tasks():
+    """"... in the creating task and in spawned tasks": a task logs through the scope that was current where it was started
+    (ctx.spawn into the scope's group - several spawns of one group from different scope levels - and plain asyncio tasks,
+    which inherit the context), also after that scope was left, and whatever its siblings enter meanwhile."""
+    import asyncio
+    sink, problems = [], []
+
+    def logger(name):
+        lg = logging.getLogger(name)
+        lg.handlers = [Capture(sink, name)]
+        lg.setLevel(0)
+        lg.propagate = False
+        return lg
+    root = logging.getLogger()
+    root.handlers = [Capture(sink, "<root>")]
+    root.setLevel(0)
+    expected = {}
+
+    async def say(tag, gate=None, inside=None):
+        if gate is not None:
+            await gate.wait()
+        if inside is not None:                  # a sibling that sits in a scope of its own while others log
+            with ctx.scope("private", logger=logger("private"), trace_id="T-private"):
+                inside.set()
+                await asyncio.sleep(0)
+                await asyncio.sleep(0)
+        ctx.log_info("line %s", tag)
+
+    async def main():
+        late = asyncio.Event()
+        sibling_in = asyncio.Event()
+        tasks = []
+        async with ctx.scope("outer", logger=logger("outer"), trace_id="T-outer"):
+            expected["first"] = ("outer", "T-outer", "outer")
+            tasks.append(ctx.spawn(say, "first"))
+            expected["sitting"] = ("outer", "T-outer", "outer")
+            tasks.append(ctx.spawn(say, "sitting", None, sibling_in))
+            with ctx.scope("inner", logger=logger("inner"), trace_id="T-inner"):
+                expected["second"] = ("inner", "T-inner", "inner")
+                tasks.append(ctx.spawn(say, "second"))
+                expected["late"] = ("inner", "T-inner", "inner")
+                tasks.append(ctx.spawn(say, "late", late))
+                expected["plain"] = ("inner", "T-inner", "inner")
+                tasks.append(asyncio.ensure_future(say("plain", late)))
+                await asyncio.sleep(0)
+            expected["third"] = ("outer", "T-outer", "outer")
+            tasks.append(ctx.spawn(say, "third"))
+            await sibling_in.wait()
+            expected["while-sibling-inside"] = ("outer", "T-outer", "outer")
+            tasks.append(ctx.spawn(say, "while-sibling-inside"))
+            async with ctx.scope("nested-async", trace_id="T-nested"):
+                expected["fourth"] = ("outer", "T-nested", "nested-async")
+                tasks.append(ctx.spawn(say, "fourth"))
+            late.set()
+        await asyncio.gather(*tasks, return_exceptions=True)
+    try:
+        asyncio.run(main())
+    except BaseException as e:  # noqa
+        return [f"spawned-task logging program ended with {e!r}"]
+    for tag, (lname, trace, scope) in expected.items():
+        hits = [r for r in sink if r[2] is not None and r[2].endswith(f"line {tag}")]
+        if len(hits) != 1:
+            problems.append(f"the line logged by task {tag!r} was emitted {len(hits)} times")
+            continue
+        got_logger, _, text, _ = hits[0]
+        if got_logger != lname or f"[{trace}]" not in text or f"[{scope}]" not in text:
+            problems.append(f"task {tag!r} was started in scope {scope!r} (logger {lname!r}, trace {trace!r}) but its line went "
+                            f"to logger {got_logger!r} as {text!r}")
+    return problems
+
+
 def main():
     sys.stdin.read()
     seed = int(os.environ.get("VERIF_SEED", "0") or 0)
@@ -128,6 +199,13 @@ def main():
         if pr:
             p = pr[0]
             break
+    if not p:
+        # last: asyncio.run() leaves the main thread without an event loop, which the synchronous trees above need
+        sp = spawned_tasks()
+        n += 1
+        if sp:
+            print(json.dumps(dict(reproduced=True, detail=dict(problem=sp[0], scenario="spawned tasks"), cases_tried=n)))
+            return
     if p:
         print(json.dumps(dict(reproduced=True, detail=dict(problem=p, seed=seed, tree=n), cases_tried=n)))
     else:
